@@ -27,8 +27,7 @@ Answer:  <final> <path> <cors> <hits>     final = refused:<why> | handled:<patte
          id-unknown | mux-redirect | mux-notfound | panic;  path = r.URL.Path at the end (hex);
          cors = 0|1|2;  hits = invocations of probe-module handlers.
          `too-many-redirects` when the /id/ chain does not end within 16 hops, `bad-op` outside the domain
-         (malformed, unsafe path bytes, CONNECT with an unclean path anywhere in the /id/ chain — the mux does
-         not canonicalise CONNECT).
+         (malformed, unsafe bytes in the path or in an index target).
 -/
 import CaddyModel.C13.Listen
 import CaddyModel.C13.Caddyfile
@@ -137,7 +136,6 @@ def distinct : List Bytes → Bool
   | a :: t => !t.contains a && distinct t
 
 def sPOST : Bytes := [80, 79, 83, 84]
-def sCONNECT : Bytes := [67, 79, 78, 78, 69, 67, 84]
 
 def showRefusal : Refusal → String
   | .aclMethod => "acl-method" | .aclPath => "acl-path" | .aclIdentity => "acl-identity"
@@ -183,13 +181,13 @@ def handleReq (load : Bool) : List String → String
         else if !listen.all listenByteOK then "bad-op"
         else if !up.all (fun v => v.all (· < 128)) then "bad-op"   -- strings.ToLower is only modelled on ASCII
         else if !(pats.all validPat) || !distinct pats || !distinct (idx.map (·.1)) then "bad-op"
+        else if !idx.all (fun e => e.2.all safeByte) then "bad-op"   -- rewritten paths stay in the mux's unescaped alphabet
         else if m.isEmpty || !m.all alpha then "bad-op"
         else if p.head? != some slash || !p.all safeByte then "bad-op"
         else match idChain idx maxHops p with
           | none => "too-many-redirects"
-          | some chain =>
-            if m == sCONNECT && !chain.all isCleanPath then "bad-op"
-            else match parseAdminListenAddr listen (if side == "R" then defaultRemoteListen else defaultLocalListen) with
+          | some _ =>
+            match parseAdminListenAddr listen (if side == "R" then defaultRemoteListen else defaultLocalListen) with
               | .err => "listen-error"
               | .ok network ahost port =>
                 if !unixPermInDomain network ahost then "bad-op"
